@@ -48,13 +48,17 @@ Definition as_lim (t : tree) : option limiting :=
     end
   | _ => None
   end.
-Definition as_dialect (z : Z) : option dialect :=
+Definition as_dialect1 (z : Z) : option dialect :=
   match z with
   | 0 => Some Default | 1 => Some SQLite | 2 => Some MySQL | 3 => Some PG
   | 4 => Some (MSSQL false) | 5 => Some (MSSQL true)
   | 6 => Some (Oracle false) | 7 => Some (Oracle true)
   | _ => None
   end.
+(* 10 + code: the statement is a compound select (UNION ...) *)
+Definition as_dialect (z : Z) : option (dialect * bool) :=
+  if z <? 10 then option_map (fun d => (d, false)) (as_dialect1 z)
+  else option_map (fun d => (d, true)) (as_dialect1 (z - 10)).
 
 Definition of_cmp (c : cmp) : tree :=
   I (match c with CLt => 0 | CLe => 1 | CGt => 2 | CGe => 3 | CEq => 4 | CNe => 5 end).
@@ -86,10 +90,10 @@ Definition of_plan (distinct : bool) (p : plan) : tree :=
 
 Definition of_rows (rs : list row) : tree := L (map (fun r => L (map I r)) rs).
 
-Definition run_one (d : dialect) (lim : limiting) (off : option clause) (ordered distinct : bool)
+Definition run_one (dc : dialect * bool) (lim : limiting) (off : option clause) (ordered distinct : bool)
                    (nkey : nat) (pre : list row) : tree :=
   let s := Sel lim off ordered distinct in
-  let p := which_form d s in
+  let p := if snd dc then compound_form (fst dc) s else which_form (fst dc) s in
   let rows := exec row row_eqb (key_eqb nkey) (fun l => l) p distinct pre in
   L [of_plan distinct p;
      if ordered then of_rows (if wrapped p then sort_rows rows else rows) else L []].
